@@ -1,8 +1,8 @@
 /* vocabulary for p?gstrf_panel_bmod (sup-panel updates of the w columns jcol..jcol+w-1 by every supernode segment in segrep[], then
  * by the "busy" supernodes on the etree path bcol -> jcol that other threads are still finishing).
- * Capacities: M rows = columns (stride of the n-by-w work arrays), W panel width, LC row subscripts, LUC stored values, TVC scalars of
+ * Capacities: M rows = columns (stride of the m-by-w work arrays), W panel width, LC row subscripts, LUC stored values, TVC scalars of
  * tempv, NP threads.  Segment q (0 <= q < nseg0, processing order = reverse of segrep[]): representative KREP(q), supernode
- * KF(q)..KREP(q) as far as it is complete. */
+ * KF(q)..KREP(q). */
 #define KREP(q)  in_segrep[in_nseg0 - 1 - (q)]
 #define SUPF(c)  in_xsup[in_supno[c]]
 #define KF(q)    SUPF(KREP(q))
@@ -13,6 +13,32 @@
 /* kernel selection rule of panel_bmod: 2-D blocking iff the supernode has at least colblk columns and rowblk rows below them */
 #define WANT2D(nsupc,nrow) ((nsupc) >= in_colblk && (nrow) >= in_rowblk)
 #define INLIST_AT(f,p) (in_xlsub[f] <= (p) && (p) < in_xlsub_end[f])
+/* busy range: columns bcol..jcol-1 (other threads are finishing them); SLAST(c) = current last column of c's supernode */
+#define BUSY(c)  (in_bcol <= (c) && (c) < in_jcol)
+#define SLAST(c) (in_xsup_end[in_supno[c]] - 1)
+#define ISFIRST(c) (in_xsup[in_supno[c]] == (c))
+/* element (row x) of panel column c (0 <= c < w) of the m-by-w work arrays */
+#define RF(c,x)  in_repfnz[(c)*in_m + (x)]
+#define MKR(c,x) in_spa_marker[(c)*in_m + (x)]
+#define PLS(c,x) in_panel_lsub[(c)*in_m + (x)]
+#define DN(c,x)  in_dense[(c)*in_m + (x)]
+/* repfnz entry of row b (a column of a supernode): EMPTY or a column of b's supernode not after b */
+#define REPWF(c,b) (RF(c,b) == EMPTY || (SUPF(b) <= RF(c,b) && RF(c,b) <= (b)))
+/* number of rows of panel column c that carry its marker jcol+c (= number of entries its panel_lsub list holds) */
+#define MK1(c,r) (((r) < M && (r) < in_m && in_spa_marker[((r) < M && (r) < in_m) ? (c)*in_m + (r) : 0] == in_jcol + (c)) ? 1 : 0)
+#define CNT(c) (MK1(c,0) + MK1(c,1) + MK1(c,2) + MK1(c,3) + MK1(c,4) + MK1(c,5) + MK1(c,6) + MK1(c,7))
+/* the U-segment of the busy supernode f.. in panel column c: zero in the pivot rows of columns f..v-1 */
+#define ZEROS_BEFORE(z,c,f,v) FA(z, M, ((f) <= z && z < (v)) ==> DN(c, in_inv_perm_r[z]) == 0.0)
+/* definition of repfnz_col[krep] after the busy phase looked at supernode f..k: the first column of f..k whose pivot row holds a nonzero
+ * of dense_col, else the old value `old` */
+#define LEADDEF(za,zb,c,f,k,old) ((RF(c,k) == (old) && ZEROS_BEFORE(za, c, f, (k) + 1)) || \
+  ((f) <= RF(c,k) && RF(c,k) <= (k) && DN(c, in_inv_perm_r[RF(c,k)]) != 0.0 && ZEROS_BEFORE(zb, c, f, RF(c,k))))
+/* the kernel call recorded for the ghost segment g_s is the one the segment defines (g_sd_* = descriptor taken from the pre-state) */
+#define RECORD_OK (g_k.krep_s == g_sd_krep && g_k.fsupc_s == g_sd_kf && g_k.nsupc_s == g_sd_krep - g_sd_kf + 1 && g_k.nsupr_s == g_sd_nsupr && \
+  g_k.nrow_s == g_sd_nsupr - (g_sd_krep - g_sd_kf + 1) && g_k.kind_s == (WANT2D(g_sd_krep - g_sd_kf + 1, g_sd_nsupr - (g_sd_krep - g_sd_kf + 1)) ? 2 : 1))
+/* length of panel column c's list while loop 6 appends to column jj - jcol (its end is still in the local j) */
+#define CUR_END(c) ((c) == jj - jcol ? j : in_w_lsub_end[c])
+#define NEW_ENTRY_OK(end) ((g_wend0 <= g_x && g_x < (end)) ==> (0 <= PLS(g_c, g_x) && PLS(g_c, g_x) < in_m && MKR(g_c, PLS(g_c, g_x)) == in_jcol + g_c))
 #ifndef SPEC_EXPAND
-struct kern_rec { int calls, calls1d, calls2d, bad, kind_s, awaits; int_t fsupc_s, krep_s, nsupc_s, nsupr_s, nrow_s; };
+struct kern_rec { int calls, calls1d, calls2d, awaits, kind_s; int_t fsupc_s, krep_s, nsupc_s, nsupr_s, nrow_s; };
 #endif
